@@ -137,7 +137,7 @@ ALTER_VALUES = [None, True, 0, -1, 2, 4, 2.5, "3", "1", "x", "", [], {}, [1], 1e
 def run(chk):
     chk.trusted_base = common.BASE_TRUST + [
         "translate/units/meta.py + _stagec.py: check_version, is_thread_stream, loom_name, proc_stream_get_pid, load_appid, load_rank, thread_stream_get_tid, thread_load_metadata, should_enable and the head / the JSON part of one loop iteration of load_cpus are rendered into coq/Gen/Meta_gen.v on every run; parson's look-up API, strcmp and the conversions double<->int are hand-written in coq/Emu/MetaPre.v over the JSON model of coq/Rt/RtMetaDefs.v (numbers are integers; `(int) d` is the identity on |d| < 2^31); clang's AST and the Python printer are trusted",
-        "translate/units/footprint.py + _stagec.py (havoc mode): the handlers of ovni/event.c, ovni/mark.c and the pre_task chains and pre_type of nosv/event.c and nanos6/event.c are rendered into coq/Gen/Foot_gen.v on every run with explicit bounds-checked payload reads; everything but the event is an arbitrary oracle (coq/Emu/FootPre.v); the translator checks that untranslated callees can only receive the event if they never mention `payload`; in pre_type a pointer into the payload is a byte offset, memcpy/memchr are explicit bounds-checked reads and the label handed to the untranslated task_type_create is assumed to be read as a C string only (a NUL inside the payload is then required and proved); clang's AST and the Python printer are trusted",
+        "translate/units/footprint.py + _stagec.py (havoc mode): the handlers of ovni/event.c, ovni/mark.c and the pre_task chains and pre_type of nosv/event.c and nanos6/event.c are rendered into coq/Gen/Foot_gen.v on every run with explicit bounds-checked payload reads, and the dispatch code of the other seven models (model_<m>_event, process_ev, simple, context_switch of nosv, nanos6, nodes, mpi, tampi, openmp, kernel /event.c) into coq/Gen/FootAll_gen.v, where the static tables ss_table / fn_table are arbitrary rows (FootPre.opq_row); everything but the event is an arbitrary oracle (coq/Emu/FootPre.v); the translator checks that untranslated callees can only receive the event if they never mention `payload`; in pre_type a pointer into the payload is a byte offset, memcpy/memchr are explicit bounds-checked reads and the label handed to the untranslated task_type_create is assumed to be read as a C string only (a NUL inside the payload is then required and proved); clang's AST and the Python printer are trusted",
         "translator translate/c2gallina.py for ovni_ev_size/ovni_payload_size (unit loader) and next_ev_size (unit loader_step), validated against the compiled C by the C19 check",
         "hand models of stream.c (coq/Emu/StreamDefs.v), emu_ev.c and model_event (coq/Emu/EmuEvDefs.v), metadata gates (coq/Emu/LoaderMetaDefs.v), validated each run against ovniemu and the in-process harness",
         "independent format specification coq/Emu/LoaderSpec.v (proved equivalent to acceptance by the model) and its Python twin lib/checks/loader_common.py:validate_obs used to classify corrupted traces",
